@@ -6,6 +6,7 @@ import (
 	"encoding/json"
 	"fmt"
 	"reflect"
+	"regexp"
 	"strings"
 )
 
@@ -93,7 +94,26 @@ func c07Pairs(c *caseCtx) {
 	if len(seq) == 0 {
 		o.biasSeq = []string{}
 	}
-	c07Run(c, genRequest(c.rng, o))
+	c07Run(c, withUndeclaredValues(c, genRequest(c.rng, o)))
+}
+
+// withUndeclaredValues: one request in ten (not for OWA / Choquet, which refuse them) carries values for criteria nobody
+// declared - input the service accepts and ignores without biases, so no combination with biases may fail on it
+func withUndeclaredValues(c *caseCtx, g *genReq) *genReq {
+	if g.method == "owa" || g.method == "choquetIntegral" || c.rng.Intn(10) != 0 {
+		return g
+	}
+	for _, a := range g.M["knownAlternatives"].([]interface{}) {
+		cv := a.(M)["criteria"].(M)
+		if c.rng.Intn(3) != 0 {
+			cv["aa_undeclared"] = quarter(c.rng, 0, 400)
+		}
+		if c.rng.Intn(2) == 0 {
+			cv["zz_undeclared"] = quarter(c.rng, 0, 400)
+		}
+	}
+	c.count("with_undeclared_values", 1)
+	return g
 }
 
 func c07Long(c *caseCtx) {
@@ -102,7 +122,7 @@ func c07Long(c *caseCtx) {
 	if c.rng.Intn(3) == 0 {
 		o.maxCrit = 6
 	}
-	c07Run(c, genRequest(c.rng, o))
+	c07Run(c, withUndeclaredValues(c, genRequest(c.rng, o)))
 }
 
 // --- per-bias drivers -----------------------------------------------------------------------------
@@ -133,13 +153,45 @@ func biasDriver(prop, focus string, nb func(c *caseCtx) int, tweak func(c *caseC
 		if tweak != nil {
 			tweak(c, g)
 		}
-		d := decide(g.body(), true)
+		if method != "owa" && method != "choquetIntegral" && c.rng.Intn(10) == 0 {
+			// alternatives may carry values for criteria nobody declared (input only): they take no part in anything
+			for _, a := range g.M["knownAlternatives"].([]interface{}) {
+				cv := a.(M)["criteria"].(M)
+				if c.rng.Intn(3) != 0 {
+					cv["aa_undeclared"] = quarter(c.rng, 0, 400)
+				}
+				if c.rng.Intn(2) == 0 {
+					cv["zz_undeclared"] = quarter(c.rng, 0, 400)
+				}
+			}
+			c.count("with_undeclared_values", 1)
+		}
+		if method == "weightedSum" && (prop == "C15" || prop == "C16") && c.rng.Intn(6) == 0 {
+			// weights may be negative (also in total): the importance is still weight x summed considered values
+			w := g.M["methodParameters"].(M)["weights"].(M)
+			for k, v := range w {
+				if f, ok := v.(float64); ok && c.rng.Intn(3) != 0 {
+					w[k] = -f
+				}
+			}
+			c.count("negative_weights", 1)
+		}
+		body := g.body()
+		if c.rng.Intn(10) == 0 {
+			// whole numbers written the way clients holding them as doubles write them: 2.0, 2e0
+			body = floatifyIntegers(body, c.rng.Intn(2) == 0)
+			c.count("integers_written_as_floats", 1)
+		}
+		d := decide(body, true)
 		c.count("evaluations", 1)
 		if !d.OK {
 			c.count("rejected", 1)
 			c.count("rejected:"+errClass(d.Err), 1)
 			// the request is in-domain by construction: if it dies while the bias under test is being applied, that bias
 			// did not do what the property says it does (failures elsewhere belong to other properties)
+			if d.Trace == nil {
+				return
+			}
 			if cur := d.Trace.cur; cur != nil && cur.Name == focus {
 				c.violate("bias-failed:"+errClass(d.Err), fmt.Sprintf("bias #%d %s fails on an in-domain request instead of transforming the data: %s", cur.Pos, cur.Name, d.Err), M{"request": g.M})
 			}
@@ -210,6 +262,17 @@ func biasDriver(prop, focus string, nb func(c *caseCtx) int, tweak func(c *caseC
 			}
 		}
 	}
+}
+
+var reIntProp = regexp.MustCompile(`"(min|max|randomSeed|newCriterionRandomSeed|queryNumber)":(-?[0-9]{1,15})([,}])`)
+
+// floatifyIntegers rewrites integer-valued properties of a request body as 2.0 (or 2e0): the same numbers, another spelling
+func floatifyIntegers(body []byte, exp bool) []byte {
+	suffix := ".0"
+	if exp {
+		suffix = "e0"
+	}
+	return reIntProp.ReplaceAll(body, []byte(`"$1":${2}`+suffix+`$3`))
 }
 
 func oneToThree(c *caseCtx) int { return 1 + c.rng.Intn(3) }
